@@ -176,3 +176,54 @@ package backend
 //@   requires wf_backend(b) && r != nil
 //@   modifies inferred:(*backend).GetPartitions
 //@   ensures [advertised-inner-borders-are-index-records] err == nil ==> forall(i, 1 <= i && i < len(resp.PartitionKeys)-1, is_internal_key(resp.PartitionKeys[i]) ==> key_rev(resp.PartitionKeys[i]) == 0)
+
+// ---- C05: the event cache (ring buffer) ----
+// Abstract view: the events at positions s .. e-1, position i living in slot i - rbase(i, l).
+// The mutex guards s, e and the slots; the invariant is assumed at Lock/RLock and re-proved at
+// Unlock, so every method is proved for any interleaving that respects the lock.
+//@ monitor Ring s e arr[]
+//@ monitor_inv Ring [shape] self.l > 0 && len(self.arr) == self.l && 0 <= self.s && self.s <= self.e && self.e <= self.s+int64(self.l)
+// fewer than 2^62 events are ever cached (trusted: no int64 wrap of the end position)
+//@ monitor_assume Ring self.e < 0x4000000000000000
+//@ monitor_inv Ring [non-nil] forall(i, self.s <= i && i < self.e, self.arr[i-rbase(i, self.l)] != nil)
+//@ monitor_inv Ring [increasing] forall(i, self.s <= i && i < self.e, forall(j, i < j && j < self.e, self.arr[i-rbase(i, self.l)].Revision < self.arr[j-rbase(j, self.l)].Revision))
+
+//@ pred ring_shape(r) = r != nil && r.l > 0 && len(r.arr) == r.l && 0 <= r.s && r.s <= r.e && r.e <= r.s+int64(r.l) && r.e < 0x4000000000000000
+
+//@ func (*Ring).index(i) (result)
+//@   props C05
+//@   reveal rbase
+//@   requires r.l > 0 && i >= 0
+//@   ensures [slot] result == i-rbase(i, r.l) && 0 <= result && result < r.l
+
+//@ func (*Ring).isEmpty() (result)
+//@   props C05
+//@   requires holds(r)
+//@   ensures [def] result == (r.e == 0)
+
+//@ func (*Ring).newest() (result)
+//@   props C05
+//@   requires holds(r) && ring_shape(r) && r.e > r.s
+//@   ensures [def] result == r.arr[(r.e-1)-rbase(r.e-1, r.l)]
+
+//@ func (*Ring).oldest() (result)
+//@   props C05
+//@   requires holds(r) && ring_shape(r)
+//@   ensures [def] result == r.arr[r.s-rbase(r.s, r.l)]
+
+//@ func NewRing(l) (result)
+//@   props C05
+//@   requires [positive-size] l > 0
+//@   ensures [empty] result != nil && result.l == l && len(result.arr) == l && result.s == 0 && result.e == 0
+
+// Add: requires a revision above everything cached (the sequencer's obligation). Between Lock
+// and Unlock: the event is appended, the oldest one evicted when full, nothing else moves.
+//@ func (*Ring).Add(event)
+//@   props C05
+//@   requires [non-nil] event != nil
+//@   callers_only (*backend).collectStorageWriteEvents
+//@   locked_assume [single-writer-adds-increasing-revisions] r.e > r.s ==> event.Revision > r.arr[(r.e-1)-rbase(r.e-1, r.l)].Revision
+//@   modifies inferred:(*Ring).Add
+//@   ensures [appended] r.e == locked(r.e)+1 && r.arr[locked(r.e)-rbase(locked(r.e), r.l)] == event
+//@   ensures [evict-only-when-full] r.s == ite(locked(r.e) == locked(r.s)+int64(r.l), locked(r.s)+1, locked(r.s))
+//@   ensures [others-kept] forall(i, r.s <= i && i < locked(r.e), r.arr[i-rbase(i, r.l)] == locked(r.arr[i-rbase(i, r.l)]))
